@@ -627,6 +627,39 @@ pub fn run(run: &Run) {
     }
     run.assume("NaN results are compared by position (any non-poison NaN payload accepted); every other value bit for bit");
     run.assume("the harness computes the scalar reference with the same libm and hardware in the same build");
+    // sums and means with infinite entries: +inf (or -inf) anywhere among finite entries gives that infinity, both
+    // signs give NaN (IEEE addition; the definition of the sum does not change because an entry is infinite)
+    for n in 1..=20usize {
+        for pos in 0..n {
+            for (val, second) in [(f64::INFINITY, None), (f64::NEG_INFINITY, None), (f64::INFINITY, Some(f64::INFINITY)), (f64::INFINITY, Some(f64::NEG_INFINITY))] {
+                let mut x: Vec<f64> = (0..n).map(|i| 1.5 * i as f64 - 3.0).collect();
+                x[pos] = val;
+                if let Some(v2) = second {
+                    if n < 2 {
+                        continue;
+                    }
+                    x[(pos + n / 2 + 1) % n] = v2;
+                    if (pos + n / 2 + 1) % n == pos {
+                        continue;
+                    }
+                }
+                let want: f64 = x.iter().sum();
+                let vx = Vector::new(x.clone());
+                let mx = Matrix::new(x.clone(), 1, n as i32);
+                for (key, got) in [("sum(slice)", guard(|| linalg::sum(&x))), ("Vector.sum", guard(|| vx.sum())), ("Matrix.sum", guard(|| mx.sum())), ("Vector.mean", guard(|| vx.mean() * n as f64))] {
+                    run.case();
+                    run.tr();
+                    run.ok();
+                    run.nontrivial(1);
+                    match got {
+                        Ok(g) if g == want || (g.is_nan() && want.is_nan()) => run.regime("reductions-with-infinite-entries"),
+                        Ok(g) => run.violate(&format!("{}/infinite-entries", key), || format!("n={} x={:?}: got {:e}, the sum is {:e}", n, x, g, want)),
+                        Err(p) => run.violate(&format!("{}/panic", key), || format!("n={} x={:?}: {}", n, x, p)),
+                    }
+                }
+            }
+        }
+    }
     // log of zero probabilities: every placement of -inf entries among finite ones (lengths 2..=10; the -inf
     // entries contribute nothing; all -inf is recorded, not judged)
     for n in 2..=10usize {
